@@ -437,6 +437,61 @@ def run_file(res, judge, tracker, fp, name, data, path, rng, tier, full_lines=Tr
     for flag in (True, False):
         for sname, sarg in sources():
             attempt("none", None, sname, (lambda sarg=sarg: faults.FaultyBytesIO(data) if sarg is None else sarg), flag)
+        # streams of other kinds that the CALLER opened (and closes): unbuffered, buffered, read-write, memory-mapped, a pipe,
+        # a decompressing stream, a socket file - complete and cut short
+        import gzip as _gzip
+        import mmap as _mmap
+        import socket as _socket
+        import threading as _threading
+        for cut in (False, True):
+            blob = data[:max(9, len(data) * 2 // 3)] if cut else data
+            cpath = str(path) + (".cut" if cut else ".whole")
+            with open(cpath, "wb") as f_:
+                f_.write(blob)
+            for sname in ("caller-fileio", "caller-buffered", "caller-rplusb", "caller-mmap", "caller-gzip", "caller-pipe", "caller-socket"):
+                closers = []
+                try:
+                    if sname == "caller-fileio":
+                        s_ = open(cpath, "rb", buffering=0)
+                    elif sname == "caller-buffered":
+                        s_ = open(cpath, "rb")
+                    elif sname == "caller-rplusb":
+                        s_ = open(cpath, "r+b")
+                    elif sname == "caller-mmap":
+                        fh = open(cpath, "rb")
+                        closers.append(fh)
+                        s_ = _mmap.mmap(fh.fileno(), 0, access=_mmap.ACCESS_READ)
+                    elif sname == "caller-gzip":
+                        s_ = _gzip.GzipFile(fileobj=BytesIO(_gzip.compress(blob)), mode="rb")
+                    elif sname == "caller-pipe":
+                        r_, w_ = os.pipe()
+                        s_ = os.fdopen(r_, "rb")
+                        wf = os.fdopen(w_, "wb")
+                        t_ = _threading.Thread(target=lambda wf=wf, blob=blob: (wf.write(blob), wf.close()))
+                        t_.start()
+                        closers.append(type("J", (), {"close": staticmethod(t_.join)}))
+                    else:
+                        a_, b_ = _socket.socketpair()
+                        s_ = a_.makefile("rb")
+                        t_ = _threading.Thread(target=lambda b_=b_, blob=blob: (b_.sendall(blob), b_.close()))
+                        t_.start()
+                        closers += [a_, type("J", (), {"close": staticmethod(t_.join)})]
+                    closers.insert(0, s_)
+                except Exception:
+                    res.count("caller_stream_kind_unavailable")
+                    for c_ in closers:
+                        c_.close()
+                    continue
+                try:
+                    attempt("truncated" if cut else "none", None, sname, (lambda s_=s_: s_), flag)
+                    res.count("caller_supplied_stream_loads")
+                finally:
+                    for c_ in closers:
+                        try:
+                            c_.close()
+                        except Exception:
+                            pass
+            os.unlink(cpath)
         # failing open() and non-existent path
         tracker.fail_open = True
         attempt("open-fails", None, "path", lambda: Path(path), flag)
